@@ -1195,16 +1195,35 @@ Proof.
     destruct C; constructor; cbn in *; auto; try lia.
 Qed.
 
+Ltac proj_simpl := cbn [width height term cur cursor has_focus sb sup u8eat u8buf escbuf inesc pstate attrspec cset saved_cur saved_attrs rotten sr_start sr_end tabstops modes events enc with_width with_height with_term with_cur with_cursor with_has_focus with_sb with_sup with_u8eat with_u8buf with_escbuf with_inesc with_pstate with_attrspec with_cset with_saved_cur with_saved_attrs with_rotten with_sr_start with_sr_end with_tabstops with_modes with_events with_enc reset_scroll init_tabstops].
+
+Lemma clear_core s :
+  1 <= width s -> 1 <= height s -> 0 <= sup s <= zlen (sb s) -> Forall wf_event (events s) ->
+  0 <= sr_start s /\ sr_start s <= sr_end s /\ sr_end s < height s ->
+  oattr_ok (attrspec s) -> match saved_attrs s with Some (a, _) => oattr_ok a | None => True end ->
+  width s <= 8 * zlen (tabstops s) -> Inv (clear s None).
+Proof.
+  intros Hw Hh Hs He Hr Ha Hsa Ht. unfold clear.
+  apply set_term_cursor_core.
+  - constructor; proj_simpl; auto.
+    + apply zlen_repeatz. lia.
+    + apply Forall_repeat. unfold empty_line. apply zlen_repeatz. lia.
+  - exact Ht.
+Qed.
+
+Lemma reset_core s :
+  1 <= width s -> 1 <= height s -> 0 <= sup s <= zlen (sb s) -> Forall wf_event (events s) -> Inv (reset s).
+Proof.
+  intros Hw Hh Hs He. unfold reset. cbv zeta.
+  apply clear_core; proj_simpl; auto; try lia; try exact Logic.I.
+  pose proof (tablen_bound (width s) ltac:(lia)) as B. unfold repeatz. rewrite zlen_repeat.
+  destruct (0 <? width s mod 8); lia.
+Qed.
+
 Lemma init_Inv w h e : 1 <= w -> 1 <= h -> Inv (init w h e).
 Proof.
-  intros Hw Hh. unfold init, reset, clear. cbv zeta.
-  apply set_term_cursor_core.
-  - constructor; cbn; auto; try lia.
-    + apply zlen_repeatz. lia.
-    + apply Forall_repeat. unfold empty_line. cbn. apply zlen_repeatz. lia.
-    + unfold zlen. cbn [length]. lia.
-  - cbn. pose proof (tablen_bound w ltac:(lia)) as B. unfold repeatz. rewrite zlen_repeat.
-    destruct (0 <? w mod 8); lia.
+  intros Hw Hh. unfold init. apply reset_core; cbn [width height sup sb events]; auto.
+  unfold zlen. cbn [length]. lia.
 Qed.
 
 Definition Safe (r : result st) : Prop := match r with Ok s' => Inv s' | Err _ => False end.
@@ -1299,17 +1318,19 @@ Qed.
 
 Lemma dropz_dropz {A} (l : list A) a b : 0 <= a -> 0 <= b -> dropz a (dropz b l) = dropz (a + b) l.
 Proof.
-  intros. unfold dropz. rewrite skipn_skipn. f_equal. lia.
+  intros. unfold dropz. replace (Z.to_nat (a + b)) with (Z.to_nat b + Z.to_nat a)%nat by lia.
+  generalize (Z.to_nat a) as n. generalize (Z.to_nat b) as m. clear. intros m. revert l.
+  induction m; intros l n; cbn [skipn Nat.add]; [reflexivity|]. destruct l; [destruct n; reflexivity|]. apply IHm.
 Qed.
 
 (* the lines are kept in order: the new scrollback is a suffix of the old one followed by the new lines *)
 Lemma SbExt_suffix a b : SbExt a b -> exists k new, 0 <= k <= zlen (a ++ new) /\ b = dropz k (a ++ new).
 Proof.
   intros H. induction H.
-  - exists 0, []. rewrite app_nil_r. split; [pose proof (zlen_nonneg a); lia|reflexivity].
+  - exists 0, []. rewrite !app_nil_r. split; [pose proof (zlen_nonneg a); lia|reflexivity].
   - destruct IHSbExt as (k & new & Hk & ->).
     assert (dropz k (a ++ new) ++ [r] = dropz k (a ++ new ++ [r])) as E.
-    { rewrite (app_assoc a new [r]). rewrite dropz_app_le by lia. reflexivity. }
+    { rewrite (app_assoc a new [r]). rewrite (dropz_app_le (a ++ new) [r] k) by lia. reflexivity. }
     assert (zlen (a ++ new ++ [r]) = zlen (a ++ new) + 1) as L.
     { rewrite (app_assoc a new [r]). unfold zlen. rewrite (app_length (a ++ new)). cbn [length]. lia. }
     unfold sb_push. cbv zeta. rewrite E.
@@ -1321,4 +1342,174 @@ Qed.
 Lemma addstr_scrollback s data s' : Inv s -> addstr s data = Ok s' -> SbExt (sb s) (sb s').
 Proof.
   intros I E. pose proof (addstr_Keeps s data I) as Kp. rewrite E in Kp. destruct Kp as (_ & _ & _ & S). exact S.
+Qed.
+
+(* ---------- the (scrolled-back) view ---------- *)
+Lemma content_spec s :
+  Inv s ->
+  content s = if sup s =? 0 then term s
+              else map (fit_line s) (takez (height s) (dropz (zlen (sb s) - sup s) (sb s ++ term s))).
+Proof.
+  intros I. unfold content. destruct (sup s =? 0) eqn:E0; [reflexivity|]. cbv zeta.
+  pose proof (i_sup s I) as Hs. pose proof (i_rows s I) as Hr. pose proof (i_h s I) as Hh.
+  pose proof (zlen_nonneg (sb s)) as Hn.
+  assert (slice_indices (zlen (sb s ++ term s)) (Some (- (height s + sup s))) (Some (- sup s)) None
+          = (zlen (sb s) - sup s, zlen (sb s) - sup s + height s, 1)) as E.
+  { rewrite zlen_app, Hr. unfold slice_indices. cbv beta zeta iota.
+    replace (1 <? 0) with false by reflexivity. cbv beta zeta iota.
+    repeat match goal with |- context [if ?c then _ else _] => destruct c eqn:? end;
+      (apply f_equal2; [apply f_equal2|reflexivity]; lia). }
+  rewrite E. replace (zlen (sb s) - sup s + height s - (zlen (sb s) - sup s)) with (height s) by lia. reflexivity.
+Qed.
+
+Lemma fit_line_len s line : 0 <= width s -> zlen (fit_line s line) = width s.
+Proof.
+  intros Hw. unfold fit_line. cbv zeta. pose proof (zlen_nonneg line).
+  destruct (0 <? width s - zlen line) eqn:C.
+  - rewrite zlen_app. unfold repeatz. rewrite zlen_repeat. lia.
+  - rewrite zlen_takez by assumption. lia.
+Qed.
+
+Lemma content_dims s : Inv s -> Dims (width s) (height s) (content s).
+Proof.
+  intros I. rewrite content_spec by assumption. destruct (sup s =? 0) eqn:E0; [apply Inv_dims; assumption|].
+  pose proof (i_sup s I) as Hs. pose proof (i_rows s I) as Hr. pose proof (i_h s I) as Hh. pose proof (i_w s I) as Hw.
+  split.
+  - rewrite zlen_map. rewrite zlen_takez by lia. rewrite zlen_dropz by lia. rewrite zlen_app. lia.
+  - apply Forall_forall. intros r Hin. apply in_map_iff in Hin. destruct Hin as (l & <- & _).
+    apply fit_line_len. lia.
+Qed.
+
+(* ---------- replies are well-formed strings ---------- *)
+Fixpoint all_digits (l : list Z) : bool :=
+  match l with [] => true | d :: r => (48 <=? d) && (d <=? 57) && all_digits r end.
+(* [1-9][0-9]* *)
+Definition num_ok (l : list Z) : bool :=
+  match l with d :: r => (49 <=? d) && (d <=? 57) && all_digits r | [] => false end.
+Fixpoint span_digits (l acc : list Z) : list Z * list Z :=
+  match l with
+  | d :: r => if (48 <=? d) && (d <=? 57) then span_digits r (acc ++ [d]) else (acc, l)
+  | [] => (acc, [])
+  end.
+(* ESC [ 0 n  |  ESC [ ? 6 c  |  ESC [ [1-9][0-9]* ; [1-9][0-9]* R *)
+Definition reply_wf_b (r : list Z) : bool :=
+  match r with
+  | 27 :: 91 :: rest =>
+      list_eqb rest [48; 110] || list_eqb rest [63; 54; 99] ||
+      (let '(a, r1) := span_digits rest [] in
+       num_ok a && match r1 with
+                   | 59 :: r2 => let '(b, r3) := span_digits r2 [] in num_ok b && list_eqb r3 [82]
+                   | _ => false
+                   end)
+  | _ => false
+  end.
+
+Lemma all_digits_app a b : all_digits (a ++ b) = all_digits a && all_digits b.
+Proof. induction a; cbn [all_digits app]; [reflexivity|]. rewrite IHa. destruct ((48 <=? a) && (a <=? 57)); reflexivity. Qed.
+
+Lemma num_ok_snoc a d : num_ok a = true -> 48 <= d <= 57 -> num_ok (a ++ [d]) = true.
+Proof.
+  destruct a as [|x r]; [discriminate|]. cbn [num_ok app]. intros H Hd.
+  rewrite all_digits_app. cbn [all_digits]. lia.
+Qed.
+
+Lemma dec_digits_ok fuel : forall n, 1 <= n < 10 ^ (Z.of_nat fuel + 1) -> num_ok (dec_digits fuel n) = true.
+Proof.
+  induction fuel; intros n Hn.
+  - cbn [dec_digits]. change (10 ^ (Z.of_nat 0 + 1)) with 10 in Hn. rewrite Z.mod_small by lia. cbn [num_ok all_digits]. lia.
+  - cbn [dec_digits]. destruct (n <? 10) eqn:C.
+    + cbn [num_ok all_digits]. lia.
+    + apply num_ok_snoc.
+      * apply IHfuel. split; [apply Z.div_le_lower_bound; lia|].
+        apply Z.div_lt_upper_bound; [lia|].
+        replace (Z.of_nat (S fuel) + 1) with (Z.succ (Z.of_nat fuel + 1)) in Hn by lia.
+        rewrite Z.pow_succ_r in Hn by lia. lia.
+      * pose proof (Z.mod_pos_bound n 10 ltac:(lia)). lia.
+Qed.
+
+Lemma dec_str_ok n : 1 <= n -> num_ok (dec_str n) = true.
+Proof.
+  intros Hn. unfold dec_str. replace (n <? 0) with false by lia. apply dec_digits_ok. split; [assumption|].
+  rewrite Z2Nat.id by (apply Z.log2_nonneg).
+  pose proof (Z.log2_spec n ltac:(lia)) as [_ Hl].
+  eapply Z.lt_le_trans; [exact Hl|]. rewrite <- Z.add_1_r. apply Z.pow_le_mono_l. lia.
+Qed.
+
+Lemma span_digits_all a : forall acc rest, all_digits a = true ->
+  (match rest with d :: _ => negb ((48 <=? d) && (d <=? 57)) = true | [] => True end) ->
+  span_digits (a ++ rest) acc = (acc ++ a, rest).
+Proof.
+  induction a; intros acc rest Ha Hr; cbn [app span_digits].
+  - rewrite app_nil_r. destruct rest as [|d r]; [reflexivity|]. cbn [span_digits]. destruct ((48 <=? d) && (d <=? 57)); [discriminate|reflexivity].
+  - cbn [all_digits] in Ha. destruct ((48 <=? a) && (a <=? 57)) eqn:C; [|discriminate].
+    rewrite IHa; [|exact Ha|exact Hr]. rewrite <- app_assoc. reflexivity.
+Qed.
+
+Lemma num_ok_digits a : num_ok a = true -> all_digits a = true.
+Proof. destruct a; [discriminate|]. cbn [num_ok all_digits]. lia. Qed.
+
+Lemma reply_cpr_wf y x : 1 <= y -> 1 <= x -> reply_wf_b (reply_cpr y x) = true.
+Proof.
+  intros Hy Hx. pose proof (dec_str_ok y Hy) as Ny. pose proof (dec_str_ok x Hx) as Nx.
+  unfold reply_cpr. set (body := dec_str y ++ [59] ++ dec_str x ++ [82]).
+  change ([27; 91] ++ body) with (27 :: 91 :: body). cbn [reply_wf_b].
+  assert (list_eqb body [48; 110] = false) as E1.
+  { subst body. destruct (dec_str y) as [|d r]; [discriminate|]. cbn [num_ok] in Ny. cbn [app list_eqb].
+    destruct (d =? 48) eqn:C; [lia|reflexivity]. }
+  assert (list_eqb body [63; 54; 99] = false) as E2.
+  { subst body. destruct (dec_str y) as [|d r]; [discriminate|]. cbn [num_ok] in Ny. cbn [app list_eqb].
+    destruct (d =? 63) eqn:C; [lia|reflexivity]. }
+  rewrite E1, E2. cbn [orb]. subst body.
+  rewrite (span_digits_all (dec_str y) [] ([59] ++ dec_str x ++ [82])); [|apply num_ok_digits; exact Ny|reflexivity].
+  cbn [app]. rewrite Ny. cbn [andb].
+  rewrite (span_digits_all (dec_str x) [] [82]); [|apply num_ok_digits; exact Nx|reflexivity].
+  cbn [app]. rewrite Nx. reflexivity.
+Qed.
+
+Lemma wf_event_reply r : wf_event (Respond r) -> reply_wf_b r = true.
+Proof.
+  intros [->|[->|(y & x & Hy & Hx & ->)]]; [reflexivity|reflexivity|apply reply_cpr_wf; assumption].
+Qed.
+
+(* ---------- the size follows the resizes ---------- *)
+Definition size_after (wh : Z * Z) (ops : list op) : Z * Z :=
+  fold_left (fun acc o => match o with Resize w h => (w, h) | _ => acc end) ops wh.
+
+Lemma reset_wh s : (width (reset s), height (reset s)) = (width s, height s).
+Proof.
+  unfold reset, clear. cbv zeta.
+  match goal with |- context [set_term_cursor ?S 0 0] => pose proof (set_term_cursor_wh S 0 0) as Q end.
+  rewrite Q. reflexivity.
+Qed.
+
+Lemma init_wh w h e : (width (init w h e), height (init w h e)) = (w, h).
+Proof. unfold init. rewrite reset_wh. reflexivity. Qed.
+
+Lemma step_size s o : Inv s -> op_ok o ->
+  match step s o with
+  | Ok s' => (width s', height s') = size_after (width s, height s) [o]
+  | Err _ => False
+  end.
+Proof.
+  intros I Ho. destruct o; cbn [step size_after fold_left].
+  - pose proof (addstr_Keeps s data I) as Kp. destruct (addstr s data); [|contradiction].
+    destruct Kp as (_ & W & H & _). rewrite W, H. reflexivity.
+  - destruct Ho as [Hw Hh]. destruct (resize_Safe s w h I Hw Hh) as (s' & E & _ & W & H). rewrite E, W, H. reflexivity.
+  - destruct (scroll_buffer_K s up false lines I) as (_ & W & H & _). rewrite W, H. reflexivity.
+  - destruct (scroll_buffer_K s true true None I) as (_ & W & H & _). rewrite W, H. reflexivity.
+  - destruct (set_focus_K s f I) as (_ & W & H & _). rewrite W, H. reflexivity.
+Qed.
+
+Lemma run_size ops : forall s, Inv s -> Forall op_ok ops ->
+  match run s ops with
+  | Ok s' => Inv s' /\ (width s', height s') = size_after (width s, height s) ops
+  | Err _ => False
+  end.
+Proof.
+  induction ops; intros s I Ho; cbn [run].
+  - split; [assumption|reflexivity].
+  - inversion Ho; subst. pose proof (step_Safe s a I H1) as Hs. pose proof (step_size s a I H1) as Hz.
+    destruct (step s a) as [s1|]; [|contradiction]. cbn [bind].
+    specialize (IHops s1 Hs H2). destruct (run s1 ops) as [s2|]; [|contradiction].
+    destruct IHops as (I2 & E2). split; [assumption|]. rewrite E2, Hz. reflexivity.
 Qed.
